@@ -163,11 +163,16 @@ class NestedDictRAMDataStore(datastore.DataStore):
   def create_trial(self, trial: study_pb2.Trial) -> resources.TrialResource:
     resource = resources.TrialResource.from_name(trial.name)
     with self._lock:
-      trial_protos = (
-          self._owners[resource.owner_id]
-          .studies[resource.study_id]
-          .trial_protos
-      )
+      try:
+        trial_protos = (
+            self._owners[resource.owner_id]
+            .studies[resource.study_id]
+            .trial_protos
+        )
+      except KeyError as err:
+        raise custom_errors.NotFoundError(
+            'Study does not exist:', resource.study_resource.name
+        ) from err
       if resource.trial_id in trial_protos:
         raise custom_errors.AlreadyExistsError(
             'Trial %s already exists' % trial.name
@@ -265,6 +270,13 @@ class NestedDictRAMDataStore(datastore.DataStore):
   ) -> resources.SuggestionOperationResource:
     resource = resources.SuggestionOperationResource.from_name(operation.name)
     with self._lock:
+      if (
+          resource.owner_id not in self._owners
+          or resource.study_id not in self._owners[resource.owner_id].studies
+      ):
+        raise custom_errors.NotFoundError(
+            'Study does not exist for operation:', operation.name
+        )
       if (
           resource.client_id
           not in self._owners[resource.owner_id]
@@ -381,11 +393,16 @@ class NestedDictRAMDataStore(datastore.DataStore):
         operation.name
     )
     with self._lock:
-      early_stopping_ops = (
-          self._owners[resource.owner_id]
-          .studies[resource.study_id]
-          .early_stopping_operations
-      )
+      try:
+        early_stopping_ops = (
+            self._owners[resource.owner_id]
+            .studies[resource.study_id]
+            .early_stopping_operations
+        )
+      except KeyError as err:
+        raise custom_errors.NotFoundError(
+            'Study does not exist for operation:', operation.name
+        ) from err
       if resource.operation_id in early_stopping_ops:
         raise custom_errors.AlreadyExistsError(
             'Operation already exists:', resource.operation_id
